@@ -4,6 +4,7 @@ rewritten children; most-specific: rebuild, then look the rebuilt node up; under
 mentioning a bound variable are dropped), computed by an independent reference on the abstract term,
 and - for symbol maps - with the substitution lemma by exhaustive valuation."""
 from ..common import get_repo, parallel_map
+from ..absint import ClassRef
 from .. import proc, refsem
 from ..proc import Shape, S, BOOL, INT
 from .. import simpcheck as sc
@@ -192,6 +193,50 @@ def _interp_job(job):
     istr = "{%s}" % ", ".join("%s(%s) := %s" % (k[0], ", ".join(proc.shape_str(x) for x in v[0]), proc.shape_str(v[1]))
                               for k, v in ip.items())
     return [(entry or cls.split(".")[-1], "%r with %s" % (shape, istr), r.kind, str(r.detail), r.result) for r in res]
+
+
+def _interp_cost_job(cls):
+    """Cost of applying function interpretations to a nest f(f(...f(a))) of depth 8 / 16 / 32 - with an interpretation whose body
+    mentions another interpreted function (as the definitions solvers print do): linear in the depth."""
+    FI = "pysmt.substituter.FunctionInterpretation"
+    shape = Shape(("lit", True, BOOL))
+    depths = (8, 16, 32)
+
+    def call(w, it, f0):
+        fs = w.symbol("f", ("FUN", INT, (INT,)))
+        gs = w.symbol("g", ("FUN", INT, (INT,)))
+        xs, ys, a_ = w.symbol("px", INT), w.symbol("py", INT), w.symbol("a0", INT)
+        out = {}
+        for variant in ("body over the formals", "body over another interpreted function"):
+            costs = []
+            for d in depths:
+                sub = w.new_walker(cls, w.env)
+                if variant == "body over the formals":
+                    fi = w.new_walker(FI, [xs], w.app("Plus", xs, w.int_const(1)))
+                else:
+                    fi = it.instantiate(ClassRef(FI), [[xs], w.app("Plus", w.app("Function", gs, [xs]), w.int_const(1))], {"allow_free_vars": True})
+                interps = {fs: fi, gs: w.new_walker(FI, [ys], w.app("Times", w.int_const(2), ys))}
+                t = a_
+                for _ in range(d):
+                    t = w.app("Function", fs, [t])
+                t = w.app("LT", t, w.symbol("lim%d" % d, INT))
+                c0 = it.cost()
+                it.call(it.getattr(sub, "substitute"), [t], {"interpretations": interps})
+                costs.append(it.cost() - c0)
+            out[variant] = costs
+        return out
+
+    def post(w, f, val, facts):
+        return proc.ProcResult(shape, "valid", val)
+    res = proc.run_proc(shape, call, post=post, services="full", world_cls=proc.TypedWorld, max_paths=4,
+                        interp_kwargs={"max_steps": 20000000, "max_loop": 200000})
+    if len(res) != 1 or res[0].kind != "valid":
+        return (cls, "unsupported", "%s %s" % (res[0].kind, str(res[0].detail)[:200]))
+    return (cls, "ok", res[0].detail)
+
+
+def interp_cost_results():
+    return [_interp_cost_job(MG), _interp_cost_job(MS)]
 
 
 ENTRIES = ["shortcuts.substitute(f, interpretations=I)", "shortcuts.substitute(f, {}, I)", "shortcuts.substitute(f, None, I)",
